@@ -536,6 +536,35 @@ pub fn spaces(tier: Tier) -> Vec<Space> {
             Err(p) => acc.violate(format!("C20/encrypt/mode={}/kind=panic@{}", m.name(), panic_site(&p)), case.idx, case.json(input), p),
         }
     }));
+    // very long messages: sizes beyond every internal piece / buffer size one could plausibly choose (4, 8, 16 MiB)
+    v.push(Space::new("very-long-messages", 4 * 4, move |case, acc| {
+        let c = coords(case.idx, &[4, 4]);
+        let m = MODES[c[0] as usize];
+        let k = key(3, m.key_len());
+        let len = [4 * 1024 * 1024 + 7usize, 5 * 1024 * 1024 + 123, 8 * 1024 * 1024 + 5, 16 * 1024 * 1024 + 1][c[1] as usize];
+        let mut ivb = [0u8; 16];
+        for (j, b) in ivb.iter_mut().enumerate() {
+            *b = 0xf0 + j as u8;
+        }
+        let message = msg(0, len);
+        let input = json!({"mode": m.name(), "key": hx(&k), "iv": hx(&ivb), "msg_len": len});
+        acc.evaluations += 1;
+        acc.transitions += 2;
+        acc.traces += 1;
+        acc.nontrivial_structural += 1;
+        let want = reference_encrypt(m, &k, &ivb, &message);
+        match lib_encrypt(m, &k, &ivb, &message) {
+            Ok(Ok(ct)) => {
+                outcome_tag(acc, b"ct", &ct);
+                if ct != want {
+                    acc.violate(format!("C20/encrypt/mode={}/kind=wrong-ciphertext", m.name()), case.idx, case.json(input.clone()), format!("{}; very long message", first_diff(&ct, &want)));
+                }
+                check_decrypt(case, acc, m, &k, &ivb, &want, &message, "standard-ciphertext", &input);
+            }
+            Ok(Err(e)) => acc.violate(format!("C20/encrypt/mode={}/kind=spurious-error", m.name()), case.idx, case.json(input), e),
+            Err(p) => acc.violate(format!("C20/encrypt/mode={}/kind=panic@{}", m.name(), panic_site(&p)), case.idx, case.json(input), p),
+        }
+    }));
     // PKCS#7 pad values above the block size, written consistently over several blocks (p bytes all equal to p, 17 <= p <= 255),
     // and valid ciphertexts followed by 1..15 stray bytes
     v.push(Space::new("cbc-oversized-padding", 2 * 2 * (BIG_PADS.len() as u64 + 15), move |case, acc| {
